@@ -333,7 +333,8 @@ def rule_scratch(fx, rep):
         cb = fx.body(callee_name(t)) if callee_name(t) else None
         if cb is not None and cb.name not in acc and norm(cb.name).startswith("chess::zobrist::") and cb.kind == "Fn" and cb not in helpers and cb is not h:
             helpers.append(cb)
-    used_by_hash = {norm(callee_name(t)) for b0 in [h] + helpers for bb, t in b0.calls() if callee_name(t) and fx.body(callee_name(t)) and fx.body(callee_name(t)).name in acc}
+    hash_bodies = [h] + helpers + [cb for cn_, cb in fx.bodies.items() if cb.kind == "Closure" and any(cn_.startswith(b0.name + "::{closure") for b0 in [h] + helpers)]
+    used_by_hash = {norm(callee_name(t)) for b0 in hash_bodies for bb, t in b0.calls() if callee_name(t) and fx.body(callee_name(t)) and fx.body(callee_name(t)).name in acc}
     used_by_toggles = set()
     per_toggle = {}
     for tname in TOGGLES:
@@ -382,9 +383,24 @@ def rule_scratch(fx, rep):
     psites = []
     for bb, t in h.calls_to("zobrist::piece_on_square"):
         psites.append((t, [h.expr(a, expand_named=True) for a in t["args"][:3]]))
+    from facts import resolve_captures
     for hb in helpers:
-        for bb, t in hb.calls_to("zobrist::piece_on_square"):
-            inner = [hb.expr(a, expand_named=True) for a in t["args"][:3]]
+        inner_sites = [[hb.expr(a, expand_named=True) for a in t["args"][:3]] for bb, t in hb.calls_to("zobrist::piece_on_square")]
+        # the word may be read inside a closure the helper folds / maps over the squares of its set argument
+        for cname, cb in fx.bodies.items():
+            if not cname.startswith(hb.name + "::{closure") or cb.kind != "Closure":
+                continue
+            for bb, t in cb.calls_to("zobrist::piece_on_square"):
+                pe, ke, se = [resolve_captures(fx, cb, cb.expr(a, expand_named=True)) for a in t["args"][:3]]
+                # the square is the closure's item parameter: stand in the iterator the closure is handed to
+                recv = None
+                for hbb, ht in hb.calls():
+                    if any(isinstance(x, tuple) and x and x[0] == "agg" and str(x[1]) == "closure:" + cname for a in ht["args"] for x in walk(hb.expr(a, expand_named=True, at=hbb))):
+                        recv = hb.expr(ht["args"][0], expand_named=True, at=hbb)
+                if recv is not None and isinstance(deep_strip(se), tuple) and deep_strip(se)[0] == "arg":
+                    se = recv
+                inner_sites.append([pe, ke, se])
+        for inner in inner_sites:
             for bb2, t2 in h.calls():
                 if callee_name(t2) and fx.body(callee_name(t2)) is hb:
                     actual = tuple(h.expr(a, expand_named=True, at=bb2) for a in t2["args"])
